@@ -5,21 +5,22 @@
 //! shutdown). Without a handler the points do nothing.
 #![allow(missing_docs, reason = "verification-only hook module")]
 
-use std::sync::atomic::{AtomicUsize, Ordering};
+use std::ptr;
+use std::sync::atomic::{AtomicPtr, Ordering};
 
-static HANDLER: AtomicUsize = AtomicUsize::new(0);
+static HANDLER: AtomicPtr<()> = AtomicPtr::new(ptr::null_mut());
 
 /// Installs (or clears) the handler invoked at every simulation point with the point's name.
 pub fn set_sim_point_handler(handler: Option<fn(&'static str)>) {
-    HANDLER.store(handler.map_or(0, |f| f as usize), Ordering::Relaxed);
+    HANDLER.store(handler.map_or(ptr::null_mut(), |f| f as *mut ()), Ordering::Relaxed);
 }
 
 #[inline]
 pub(crate) fn sim_point(name: &'static str) {
     let raw = HANDLER.load(Ordering::Relaxed);
-    if raw != 0 {
-        // SAFETY: The only non-zero values ever stored are `fn(&'static str)` pointers.
-        let handler = unsafe { std::mem::transmute::<usize, fn(&'static str)>(raw) };
+    if !raw.is_null() {
+        // SAFETY: The only non-null values ever stored are `fn(&'static str)` pointers.
+        let handler = unsafe { std::mem::transmute::<*mut (), fn(&'static str)>(raw) };
         handler(name);
     }
 }
